@@ -41,10 +41,151 @@ fn dec_event(text: &[u8]) -> Value {
     }
 }
 
+/// One cell of a functional-dependency table of the sweep: everything seen under one key.
+#[derive(Clone, Default)]
+struct Cell {
+    seen: [u64; 4], // bitset of values seen at the position
+    lens: u16,      // bitset of result lengths (bit 15: longer than 14)
+    bad: u32,       // calls that returned an error or panicked
+}
+impl Cell {
+    fn see(&mut self, v: u8, len: usize) {
+        self.seen[(v >> 6) as usize] |= 1u64 << (v & 63);
+        self.lens |= 1u16 << len.min(15);
+    }
+    fn merge(&mut self, o: &Cell) {
+        for i in 0..4 {
+            self.seen[i] |= o.seen[i];
+        }
+        self.lens |= o.lens;
+        self.bad += o.bad;
+    }
+    fn seen_list(&self) -> Vec<u32> {
+        (0..256u32).filter(|v| self.seen[(v >> 6) as usize] >> (v & 63) & 1 == 1).collect()
+    }
+    fn lens_list(&self) -> Vec<u32> {
+        (0..16u32).filter(|l| self.lens >> l & 1 == 1).collect()
+    }
+}
+
+const ALPHABET: &[u8; 64] = b"ABCDEFGHIJKLMNOPQRSTUVWXYZabcdefghijklmnopqrstuvwxyz0123456789+/";
+
+/// Exhaustive sweep: every three-byte group through Base64::encode and every four-character group over
+/// the alphabet through Base64::decode (2 x 16 777 216 calls of the real library).  Recorded per key
+/// (two neighbouring coordinates) is the set of values seen at one output position; the judgement
+/// (each set is the singleton RFC 4648 prescribes) is Codec_Base64!SweepPermitted, made by TLC.
+/// `firsts` restricts the first coordinate (quick tier); the other coordinates always run in full.
+fn sweep(out: &mut Out, firsts: usize, threads: usize) {
+    let step = 256usize / firsts.max(1).min(256);
+    let enc_firsts: Vec<usize> = (0..256).step_by(step.max(1)).collect();
+    let step64 = (64usize * firsts.max(1).min(256) / 256).max(1);
+    let dec_firsts: Vec<usize> = (0..64).step_by((64 / step64).max(1)).collect();
+    for dir in ["enc", "dec"] {
+        let firsts: Vec<usize> = if dir == "enc" { enc_firsts.clone() } else { dec_firsts.clone() };
+        let n = if dir == "enc" { 256usize } else { 64 };
+        let npos = if dir == "enc" { 4 } else { 3 };
+        // work items are (first, second) coordinate pairs, dealt round-robin to the threads
+        let pairs: Vec<(usize, usize)> = firsts.iter().flat_map(|&a| (0..n).map(move |b| (a, b))).collect();
+        let chunks: Vec<Vec<(usize, usize)>> = (0..threads).map(|t| pairs.iter().cloned().skip(t).step_by(threads).collect()).collect();
+        let handles: Vec<_> = chunks
+            .into_iter()
+            .map(|mine| {
+                let dir = dir.to_string();
+                std::thread::spawn(move || {
+                    // tables[k]: n*n cells keyed by the two coordinates position k depends on
+                    let mut tables: Vec<Vec<Cell>> = (0..npos).map(|_| vec![Cell::default(); n * n]).collect();
+                    for &(a, b) in &mine {
+                        {
+                            for c in 0..n {
+                                if dir == "enc" {
+                                    let input = [a as u8, b as u8, c as u8];
+                                    let keys = [a * n, a * n + b, b * n + c, c];
+                                    match guarded(move || Base64::encode(&input)) {
+                                        Outcome::Done(Ok(text)) => {
+                                            let t = text.as_bytes();
+                                            for k in 0..4 {
+                                                let v = if k < t.len() { t[k] } else { 0 };
+                                                tables[k][keys[k]].see(v, t.len());
+                                            }
+                                        }
+                                        _ => {
+                                            for k in 0..4 {
+                                                tables[k][keys[k]].bad += 1;
+                                            }
+                                        }
+                                    }
+                                } else {
+                                    for d in 0..n {
+                                        let text = String::from_utf8(vec![ALPHABET[a], ALPHABET[b], ALPHABET[c], ALPHABET[d]]).unwrap();
+                                        let keys = [a * n + b, b * n + c, c * n + d];
+                                        match guarded(move || Base64::decode(text)) {
+                                            Outcome::Done(Ok(bytes)) => {
+                                                for k in 0..3 {
+                                                    let v = if k < bytes.len() { bytes[k] } else { 0 };
+                                                    tables[k][keys[k]].see(v, bytes.len());
+                                                }
+                                            }
+                                            _ => {
+                                                for k in 0..3 {
+                                                    tables[k][keys[k]].bad += 1;
+                                                }
+                                            }
+                                        }
+                                    }
+                                }
+                            }
+                        }
+                    }
+                    tables
+                })
+            })
+            .collect();
+        let mut tables: Vec<Vec<Cell>> = (0..npos).map(|_| vec![Cell::default(); n * n]).collect();
+        for h in handles {
+            let part = h.join().expect("sweep thread");
+            for k in 0..npos {
+                for i in 0..n * n {
+                    tables[k][i].merge(&part[k][i]);
+                }
+            }
+        }
+        for k in 0..npos {
+            for i in 0..n * n {
+                let cell = &tables[k][i];
+                if cell.lens == 0 && cell.bad == 0 {
+                    continue; // key not visited (restricted first coordinate, or the unused half of a one-coordinate key)
+                }
+                let (x, y) = (i / n, i % n);
+                let (x, y) = if dir == "enc" { (x as u32, y as u32) } else { (ALPHABET[x] as u32, ALPHABET[y] as u32) };
+                out.emit(&json!({"op":"sweep","dir":dir,"k":k + 1,"x":x,"y":y,
+                                 "seen":cell.seen_list(),"lens":cell.lens_list(),"bad":cell.bad}));
+            }
+        }
+    }
+}
+
 pub fn run(o: &Opts) -> i32 {
     let mut out = Out::create(o.req("out"));
+    let firsts = o.num("sweep", 0) as usize;
+    if firsts > 0 {
+        sweep(&mut out, firsts, o.num("threads", 12) as usize);
+    }
     if let Some(cases) = o.get("cases") {
-        for c in read_ndjson(cases) {
+        // streamed: the thorough tier replays millions of cases
+        use std::io::BufRead;
+        let fh = std::fs::File::open(cases).unwrap_or_else(|e| {
+            eprintln!("cannot open {}: {}", cases, e);
+            std::process::exit(2)
+        });
+        for line in std::io::BufReader::new(fh).lines() {
+            let line = line.expect("read line");
+            if line.trim().is_empty() {
+                continue;
+            }
+            let c: Value = serde_json::from_str(&line).unwrap_or_else(|e| {
+                eprintln!("bad json in {}: {}", cases, e);
+                std::process::exit(2)
+            });
             if !c["txt"].is_null() {
                 let ev = dec_event(&bytes_of(&c["txt"]));
                 if !ev.is_null() {
